@@ -1561,7 +1561,7 @@ def gen_daemon_history(rng, n_ops):
     return ops
 
 
-def run_daemon_history(ctx, ops):
+def run_daemon_history(ctx, ops, batch=None):
     """One history on a real DBusClientConnection whose transport leads to a SpecDaemon.  Every method call the client
     writes to the bus driver is handed to the daemon in the order written; the daemon's reply is delivered when the
     history says so; a broadcast signal reaches the client only when the daemon - holding exactly the rules the
@@ -1835,9 +1835,24 @@ def run_daemon_history(ctx, ops):
             ctx.stat('client-daemon:history-ends-with-identical-live-rules')
     finally:
         restore_log(router, saved)
-    out = ctx.model(lines)
     ctx.case('client-daemon', sample=inp)
-    if out is not None:
+    if batch is not None:
+        batch.append((inp, lines, impl))
+    else:
+        compare_daemon_histories(ctx, [(inp, lines, impl)])
+
+
+def compare_daemon_histories(ctx, batch):
+    """Correspondence of `client-daemon` histories with the model (System = client + SPEC daemon), one driver run for
+    the whole batch (every history starts with `dreset`)."""
+    all_lines = [ln for _, lines, _ in batch for ln in lines]
+    out_all = ctx.model(all_lines)
+    if out_all is None:
+        return
+    off = 0
+    for inp, lines, impl in batch:
+        out = out_all[off:off + len(lines)]
+        off += len(lines)
         for i, (a, b) in enumerate(zip(out, impl)):
             a = canon_inv(a)
             if a.startswith('sentadd ') or a.startswith('sentremove '):
@@ -2830,23 +2845,40 @@ def run_multi_proxy(ctx, sc):
         restore_log(router, saved)
 
 
-def stream_multi_proxy(ctx, sc):
+def stream_multi_proxy(ctx, sc, batch=None):
     lines, impl, checks = run_multi_proxy(ctx, sc)
     ctx.case('proxy-connections', sample=sc)
-    out = ctx.model(lines)
-    if out is None:
+    if batch is not None:
+        batch.append((sc, lines, impl, checks))
+    else:
+        compare_multi_proxy(ctx, [(sc, lines, impl, checks)])
+
+
+def compare_multi_proxy(ctx, batch):
+    """Correspondence of `proxy-connections` scenarios with the model (ProxyTable, Rule.match, the gate), one driver
+    run for the whole batch (every scenario starts with `mpreset`; `match` / `gate` lines carry no state)."""
+    out_all = ctx.model([ln for _, lines, _, _ in batch for ln in lines])
+    if out_all is None:
         return
-    for i, ln in enumerate(lines):
-        if ln.split(' ')[0] in ('mpreset', 'mpsub', 'mpcancel') and out[i] != impl[i]:
-            ctx.disagree('proxy-connections', sc, {'line': ln, 'out': out[i]}, impl[i], detail='cancelSignalNotification')
-            return
-    for li, calls, state in checks:
-        model = 'none' if state == 'removed' else (out[li + 1] if out[li] == 'call' else 'none')
-        got = 'none' if not calls else 'call ' + enc_body([['str', a, None] if isinstance(a, str) else ['other', None, None]
-                                                           for a in calls[0]])
-        if model != got or len(calls) > 1:
-            ctx.disagree('proxy-connections', sc, {'line': lines[li] + ' / ' + lines[li + 1], 'out': model}, got)
-            return
+    off = 0
+    for sc, lines, impl, checks in batch:
+        out = out_all[off:off + len(lines)]
+        off += len(lines)
+        bad = False
+        for i, ln in enumerate(lines):
+            if ln.split(' ')[0] in ('mpreset', 'mpsub', 'mpcancel') and out[i] != impl[i]:
+                ctx.disagree('proxy-connections', sc, {'line': ln, 'out': out[i]}, impl[i], detail='cancelSignalNotification')
+                bad = True
+                break
+        if bad:
+            continue
+        for li, calls, state in checks:
+            model = 'none' if state == 'removed' else (out[li + 1] if out[li] == 'call' else 'none')
+            got = 'none' if not calls else 'call ' + enc_body([['str', a, None] if isinstance(a, str) else ['other', None, None]
+                                                               for a in calls[0]])
+            if model != got or len(calls) > 1:
+                ctx.disagree('proxy-connections', sc, {'line': lines[li] + ' / ' + lines[li + 1], 'out': model}, got)
+                break
 
 
 def probe_internal_reentrancy(ctx):
@@ -3014,10 +3046,16 @@ def run(ctx):
         if not guarded(ctx, ['client-histories'], lambda: run_client_history(ctx, h_)):
             break
 
+    dbatch = []
     for _ in range(ctx.scale(quick=150, thorough=1500)):
         dh_ = gen_daemon_history(rng, rng.choice([6, 12, 25]))
-        if not guarded(ctx, ['client-daemon'], lambda: run_daemon_history(ctx, dh_)):
+        if not guarded(ctx, ['client-daemon'], lambda: run_daemon_history(ctx, dh_, dbatch)):
             break
+        if len(dbatch) >= 75:
+            guarded(ctx, ['client-daemon'], lambda: compare_daemon_histories(ctx, dbatch))
+            dbatch = []
+    if dbatch:
+        guarded(ctx, ['client-daemon'], lambda: compare_daemon_histories(ctx, dbatch))
 
     rules = [{}]
     for _ in range(ctx.scale(quick=400, thorough=4000)):
@@ -3035,10 +3073,16 @@ def run(ctx):
     scs = [gen_proxy_scenario(rng) for _ in range(ctx.scale(quick=120, thorough=1200))]
     guarded(ctx, ['proxy-gate'], lambda: stream_proxy(ctx, scs))
 
+    mbatch = []
     for _ in range(ctx.scale(quick=100, thorough=1000)):
         mp_ = gen_multi_proxy(rng)
-        if not guarded(ctx, ['proxy-connections'], lambda: stream_multi_proxy(ctx, mp_)):
+        if not guarded(ctx, ['proxy-connections'], lambda: stream_multi_proxy(ctx, mp_, mbatch)):
             break
+        if len(mbatch) >= 50:
+            guarded(ctx, ['proxy-connections'], lambda: compare_multi_proxy(ctx, mbatch))
+            mbatch = []
+    if mbatch:
+        guarded(ctx, ['proxy-connections'], lambda: compare_multi_proxy(ctx, mbatch))
 
     guarded(ctx, [], lambda: probe_internal_reentrancy(ctx))
     guarded(ctx, [], lambda: probe_apostrophe(ctx))
